@@ -39,7 +39,7 @@ REAL_STUB = {
              "uuid4 -> counter", "configuration A: server -> scripted peer using the real encode_message/stream_recv_msg"],
 }
 EXPECTED_PROBES = [f"fault_cut_{c}_{k}" for c in CUT_CLASSES for k in ("fin", "rst")] + [
-    "probe_two_or_more_pending", "probe_three_pending", "probe_out_of_order_arrival", "probe_call_after_loss", "probe_close_race",
+    "probe_two_or_more_pending", "probe_three_pending", "probe_out_of_order_arrival", "probe_call_after_loss", "probe_close_race", "probe_close_path_0", "probe_close_path_1", "probe_close_path_2", "probe_close_path_3",
     "probe_retry_path", "probe_server_error", "probe_server_shutdown", "probe_peer_push_handled", "probe_cut_with_calls_pending",
     "probe_big_response", "probe_big_request", "probe_unencodable_request", "probe_broken_on_error_ran",
     "probe_many_unencodable_requests_then_a_call", "net_cut_timeout", "probe_two_connections", "line_preemptions_hot", "probe_bidirectional", "probe_reverse_call",
@@ -394,6 +394,7 @@ def scenario(ch, cfg):
     if fault == "close-race":
         delay = ch.draw(60, "close.delay")
         close_side = ch.draw(2, "close.side") if bidir else 0
+        close_how = ch.draw(4, "close.how")
 
         def do_close():
             for _ in range(delay):
@@ -406,7 +407,20 @@ def scenario(ch, cfg):
                 stats["probe_server_initiated_close"] += 1
                 ncs[1].close()
             else:
-                nc.close()
+                # the documented ways of closing from this side: the handle's close(), .clic of the function handle,
+                # .clic of a dictionary handle of the same connection, the process's shutdown event
+                how = close_how
+                stats[f"probe_close_path_{how}"] += 1
+                if how == 0:
+                    nc.close()
+                elif how == 1:
+                    r = ipc.eval_sys_fn_shutdown_client(nc)
+                    if r not in (0, 1):
+                        viol("C14:clic-returns-neither-0-nor-1", f".clic(f) returned {r!r}")
+                elif how == 2:
+                    ipc.eval_sys_fn_shutdown_client(ipc.NetworkClientDictHandle(nc))
+                else:
+                    env.client.close_event.trigger()
             w.note("close() returned")
         closer = w.spawn("closer", do_close)
         actors.append(closer)
